@@ -173,6 +173,12 @@ def step (s : S) (args : List String) (impl : String) : S × Out :=
         -- C05: a completion must rest on an accepted certificate bound to the peer's noise static key
         match implRes impl with
         | some (_ :: _ :: cert :: rest) =>
+          -- C06: the message count a Result reports is the noise message index of this side (2 for IX),
+          -- whatever the unauthenticated header of the packet says
+          if (match rest with
+              | _ :: _ :: _ :: mi :: _ => some mi != kv (impl.splitOn " ") "mi" || mi != "2"
+              | _ => true) then s!"bad message-index-not-noise-index res={rest}"
+          else
           if !reached then "bad complete-without-read"
           -- C05: the reported certificate carries exactly the static key the peer used in the exchange
           else if (match Handshake.readStatic rd, rest.getLast? with
@@ -203,6 +209,9 @@ def step (s : S) (args : List String) (impl : String) : S × Out :=
     | _, _, _, _, _, _ => (s, badOp)
   | "forge" :: dst :: _ =>
     (setR s dst none, { model := s!"ok len={(kv ann "len").getD "?"}", tag := "triv:forge" })
+  | "mut" :: dst :: src :: "hdr" :: _ =>
+    -- only the unauthenticated header changes: the noise message (and what the model says it carries) is the sender's
+    (setR s dst (findR s src), { model := s!"ok len={(kv ann "len").getD "?"}", tag := "triv:mut-hdr" })
   | "mut" :: dst :: _ =>
     (setR s dst none, { model := s!"ok len={(kv ann "len").getD "?"}", tag := "triv:mut" })
   | ["seed", m, mi] =>
